@@ -15,7 +15,7 @@ def worker(ctx):
     ccommon.run_opt_cases(ctx, n_cases, n_random, {"same": True, "go": GO})
 
 
-GO = False
+GO = True
 
 if __name__ == "__main__":
     harness.main(
@@ -27,5 +27,5 @@ if __name__ == "__main__":
         assumptions=["basis sweep: complete for the statement shapes emitted today ((x>>a)&mask OR-ed together, plus sign extension), not a proof",
                      "x86-64 little-endian host"],
         required_counters=["opt_encode_compared", "opt_decode_compared", "opt_calls:little", "opt_calls:big", "opt_calls:both",
-                           "opt_calls:both+BP_BIG_ENDIAN", "builds:std"],
+                           "opt_calls:both+BP_BIG_ENDIAN", "builds:std", "go_opt_encode_evaluated", "go_opt_decode_evaluated"],
     )
